@@ -10,6 +10,9 @@ import sys
 
 ROOT = os.path.dirname(os.path.dirname(os.path.abspath(__file__)))
 KNOWN = os.path.join(ROOT, "KNOWN_FINDINGS.txt")
+# evidence/ and replays/ are written under OUT (the self-test on scratch copies redirects it so that a run on a
+# deliberately broken copy never overwrites the evidence of the real tree)
+OUT = os.environ.get("SEGVC_OUT", ROOT)
 
 
 def load_known():
@@ -63,7 +66,7 @@ def finish(prop, tier, results, wall, verbose=False, partial=False):
     lines = []
     violations = 0
     known_hits = []
-    os.makedirs(os.path.join(ROOT, "replays"), exist_ok=True)
+    os.makedirs(os.path.join(OUT, "replays"), exist_ok=True)
     for e in refuted:
         k = next((k for k in known if k["obligation"] == e["name"]), None)
         if k is not None:
@@ -73,7 +76,7 @@ def finish(prop, tier, results, wall, verbose=False, partial=False):
         violations += 1
         o = e["refuted"][0]
         hid = hashlib.sha256(e["name"].encode()).hexdigest()[:10]
-        rp = os.path.join(ROOT, "replays", f"{prop}-{hid}.json")
+        rp = os.path.join(OUT, "replays", f"{prop}-{hid}.json")
         replay = {
             "property": prop,
             "obligation": e["name"],
@@ -132,8 +135,8 @@ def finish(prop, tier, results, wall, verbose=False, partial=False):
         "violations": violations,
     }
     if not partial:
-        os.makedirs(os.path.join(ROOT, "evidence"), exist_ok=True)
-        with open(os.path.join(ROOT, "evidence", f"{prop}.json"), "w") as f:
+        os.makedirs(os.path.join(OUT, "evidence"), exist_ok=True)
+        with open(os.path.join(OUT, "evidence", f"{prop}.json"), "w") as f:
             json.dump(evidence, f, indent=1)
     print(
         f"{prop}: {discharged}/{total} obligations discharged ({sum(e['instances'] for e in by_name.values())} instances, {paths} paths, "
